@@ -45,7 +45,6 @@ fn worker_main() {
         libc::setrlimit(libc::RLIMIT_AS, &lim);
     }
     let rt = tokio::runtime::Builder::new_current_thread().enable_all().build().unwrap();
-    let flight = rt.block_on(async { mk_flight() });
     let stdin = std::io::stdin();
     let stdout = std::io::stdout();
     for line in stdin.lock().lines() {
@@ -90,7 +89,9 @@ fn worker_main() {
                         arrow_flight::FlightData { flight_descriptor: None, data_header: unhex(h).into(), app_metadata: Default::default(), data_body: unhex(b).into() }
                     })
                     .collect();
-                let svc = flight.clone();
+                // a fresh ingester per stream: what an earlier hostile stream left in the
+                // write buffer must not decide the answer to this one
+                let svc = rt.block_on(async { mk_flight() });
                 let r = rt.block_on(async move {
                     let h = tokio::spawn(async move { svc.process_stream(frames.into_iter()).await.map_err(|e| e.to_string()) });
                     h.await
